@@ -71,7 +71,10 @@ class Executor:
             self._sheets_size[sheet]['last_row'] = max(row, self._sheets_size[sheet]['last_row'])
             self._sheets_size[sheet]['last_column'] = max(column, self._sheets_size[sheet]['last_column'])
 
-        self._cells = {*cells, *self._cells}
+        # one override per cell: a later write to the same cell replaces the earlier one
+        overrides = {cell.uid: cell for cell in self._cells}
+        overrides.update({cell.uid: cell for cell in cells})
+        self._cells = set(overrides.values())
         self._cells_have_been_changed = True
         return self
 
